@@ -115,7 +115,7 @@ def coarse(t):
         if b[0] == "param":
             return "field-of-param"
         if b[0] == "call":
-            return "field-of-call:" + b[1].rsplit("::", 1)[-1]
+            return "field-of-call:" + _call_name(b[1], b[1].rsplit("::", 1)[-1])
         return "field"
     if s[0] == "call":
         return "call:" + _call_name(s[1], "::".join(s[1].replace("<", "").replace(">", "").rsplit("::", 2)[-2:]))
@@ -345,6 +345,11 @@ def interval(F, t, depth=0):
         g = _ENV[0].get(P.strip(t))
         if g is not None:
             return g
+    if t[0] == "phi":
+        ivs = [interval(F, a, depth + 1) for a in P.alts(t)]
+        if ivs and all(iv is not None for iv in ivs):
+            return (min(iv[0] for iv in ivs), max(iv[1] for iv in ivs))
+        return None
     if t[0] == "discr" and _FN[0] is not None:
         # `*self as usize` on a fieldless enum: between its smallest and largest declared discriminant
         s_ = P.strip(t[1])
@@ -408,6 +413,10 @@ def interval(F, t, depth=0):
             return (a[0] - b[1], a[1] - b[0])
         if a[0] >= 0 and b[0] >= 0:
             return (a[0] * b[0], a[1] * b[1])
+    if t[0] == "bin" and t[1] == "Shl":
+        a, b = interval(F, t[2], depth + 1), interval(F, t[3], depth + 1)
+        if a is not None and b is not None and a[0] >= 0 and 0 <= b[0] and b[1] < 64:
+            return (a[0] << b[0], a[1] << b[1])
     return None
 
 
@@ -511,6 +520,11 @@ def _bounded_counter(F, fn, pr, site):
             return None
         a = brv["a"].get("copy") or brv["a"].get("move")
         c = brv["b"].get("const", {}).get("int") if "const" in brv["b"] else None
+        if c is None and a and a["l"] == S:
+            # `S += w` with w bounded (a weight chosen by a match on an enum, `1 << (12 - code)`, ..): the upper bound counts
+            ivw = interval(F, pr.operand(brv["b"]))
+            if ivw is not None and ivw[0] >= 0:
+                c = ivw[1]
         if not a or a["l"] != S or not isinstance(c, int) or c < 0:
             return None
         trips = 1
@@ -524,6 +538,53 @@ def _bounded_counter(F, fn, pr, site):
         total += c * trips
     if inits + total <= (1 << bits) - 1:
         return "R-bounded-counter"
+    return None
+
+
+def _position_index(F, fn, pr, site, n):
+    """the index is the position a scan stopped at: a counter (0, += 1 per missed element) captured as `Some(counter)` inside
+    a `for` loop over at most n elements, before that iteration's increment -- so it is at most (elements - 1) < n"""
+    from . import loops as L
+    t = P.strip(P.narrow_deep(P.strip(site.info["index"])))
+    cl = None
+    for l, ds in pr.defs.items():
+        if len(ds) >= 2 and (pr.local(l) == t or ("self", l) == t):
+            al = P.alts(pr.local(l))
+            if len(al) == 2 and any(P.const_int(a) == 0 for a in al) and \
+                    any(a[0] == "bin" and a[1] == "Add" and a[2] == ("self", l) and P.const_int(a[3]) == 1 for a in al):
+                cl = l
+    if cl is None:
+        return None
+    incs = [bi for (bi, si, k, rv) in pr.defs[cl] if k == "rv" and "bin" in rv]
+    hits = []
+    for bi in sorted(fn.cfg.reachable):
+        for s_ in fn.blocks[bi]["stmts"]:
+            if s_["k"] == "assign" and "agg" in s_["rv"] and isinstance(s_["rv"]["agg"], dict) and s_["rv"]["agg"].get("variant") == "Some" \
+                    and s_["rv"]["agg"].get("adt") == "std::option::Option" and len(s_["rv"]["ops"]) == 1:
+                o = s_["rv"]["ops"][0]
+                pl = o.get("copy") or o.get("move")
+                if pl and pl["l"] == cl and not pl["proj"]:
+                    hits.append(bi)
+    if not hits or not incs:
+        return None
+    for lp in L.for_loops(fn, pr):
+        if all(h in lp.body or fn.cfg.dominates(lp.header, h) for h in hits) and all(i_ in lp.body for i_ in incs):
+            nb = _trip_bound(F, fn, lp)
+            if nb is None:
+                src, chain = lp.chain()
+                s0 = P.strip(src, calls=False)
+                if s0[0] == "repeat" and all(c.rsplit("::", 1)[-1] in _SHORTENING for c in chain):
+                    nb = int(s0[2])          # a local array `[0; N]`
+            if nb is None or nb > n:
+                continue
+            # no increment between the loop header and a hit within one iteration
+            ok = True
+            for i_ in incs:
+                r_ = I.reachable_avoiding(fn, [], start=i_, removed_blocks=[lp.header])
+                if any(h in r_ for h in hits):
+                    ok = False
+            if ok:
+                return "R-position-index"
     return None
 
 
@@ -556,6 +617,9 @@ def _discharge(F, cg, site, pr, ctxinfo):
             iv = interval(F, site.info["index"]) or interval(F, P.strip(P.narrow_deep(P.strip(site.info["index"]))))
             if iv is not None and 0 <= iv[0] and iv[1] < n:
                 return "R-interval"
+            r = _position_index(F, fn, pr, site, n)
+            if r:
+                return r
             # index is the item of a `for i in 0..CONST` loop? (not present in this crate)
     if site.kind == "assert-overflow":
         a, b = P.const_int(site.info["a"]), P.const_int(site.info["b"])
